@@ -1,6 +1,8 @@
 """C19 - Avro export preserves supported values and never corrupts silently (DESIGN section 4, C19)."""
 from __future__ import annotations
 
+import datetime as _dt
+import io
 import json
 import os
 import random
@@ -27,7 +29,10 @@ RULE = (
     "its own _source/_classification/_generated) is offered first or after plain records; pairs of DIFFERENT descriptors with "
     "the same name and the same 32-bit identifier hash (re-split type/name concatenation), or the same name and different "
     "hashes, are written by one process each to its own file, in both orders, sequentially or open together, alone or between "
-    "files of other types (each file must carry its own doc, schema fields and records); three modes: clean (only mappable records), stop (close after the "
+    "files of other types (each file must carry its own doc, schema fields and records); record types WITHOUT own fields "
+    "(RecordDescriptor(name, [])): N records differing only in the reserved slots, then a record of another type / another "
+    "field-less type, a field-less record after a normal type, an empty GroupedRecord first; the sink is a path or an "
+    "io.BytesIO handed to AvroWriter; three modes: clean (only mappable records), stop (close after the "
     "first refusal), continue (keep writing after refusals).  Oracle (independent model verif/avro_c19.py, never "
     "AVRO_TYPE_MAP): a record whose descriptor is the file's type and whose every slot is in the Avro range MUST be accepted; "
     "any other record is refused with an exception or else stored faithfully (a grouped record: its flat values under its "
@@ -65,8 +70,18 @@ ANCHORS = [
     "flow.record.adapter.avro:avro_type_to_flow_type",
 ]
 MODES = ("clean", "stop", "continue")
+# record types WITHOUT own fields (only the reserved slots): N of them; then a record of another mapped type; then a record of
+# another field-less type; a normal type first and a field-less record later; a field-less GroupedRecord (no members) first
+FIELDLESS_SHAPES = ("only", "then-other", "then-other-fieldless", "other-then-fieldless", "empty-group-first")
 PARTIAL_BLOCK_KEY = "avro-refused-record-partial-block"
 ENCODER_REASONS = ("int-range", "long-range", "surrogate-text", "digest", "float-range", "datetime-range")
+
+
+class KeepOpen(io.BytesIO):
+    """In-memory sink that keeps its bytes reachable after the writer closed it."""
+
+    def close(self):
+        pass
 
 
 def setup(ctx):
@@ -89,6 +104,13 @@ def teardown(ctx):
 
 
 def generate(ctx):
+    for j, case in enumerate(_generate(ctx)):
+        if case["k"] != "multi" and "sink" not in case:
+            case["sink"] = "bytesio" if (j % 3 == 2) else "path"
+        yield case
+
+
+def _generate(ctx):
     idx = 0
     reps = ctx.scale(5, 12)
     bad_classes = set(sum(am.BAD_CLASSES.values(), ()))
@@ -113,6 +135,13 @@ def generate(ctx):
                             yield {"k": "grouped", "members": members, "pos": pos, "same_name": same_name, "mode": mode,
                                    "s": subseed("c19", ctx.seed, "grouped", members, pos, same_name, mode, rep)}
                         idx += 1
+        for shape in FIELDLESS_SHAPES:
+            for mode in ("stop", "continue"):
+                for sink in ("path", "bytesio"):
+                    if ctx.mine(idx):
+                        yield {"k": "fieldless", "shape": shape, "mode": mode, "sink": sink,
+                               "s": subseed("c19", ctx.seed, "fieldless", shape, mode, sink, rep)}
+                    idx += 1
         for pair in ("coincident", "same-name"):
             for order in ("ab", "ba"):
                 for layout in ("sequential", "open-together"):
@@ -187,6 +216,31 @@ def build_history(case, thorough):
         else:
             at = rng.randint(1, len(recs))
             recs = recs[:at] + intruders[:1] + recs[at:] + intruders[1:]
+    if k == "fieldless":
+        from flow.record import GroupedRecord, RecordDescriptor
+
+        def marker(d, i):
+            return d.recordType(_source="marker-%d" % i, _classification=rng.choice(["green", "amber", None]),
+                                _generated=_dt.datetime(2024, 5, 17, 12, 0, i % 60, 100000 + i, tzinfo=_dt.timezone.utc))
+
+        empty = RecordDescriptor(gen.rand_typename(rng), [])
+        n = rng.choice([1, 2, 3, 8, 40])
+        markers = [marker(empty, i) for i in range(n)]
+        shape = case["shape"]
+        if shape == "only":
+            recs = markers
+        elif shape == "then-other":
+            at = rng.randint(1, len(markers))
+            recs = markers[:at] + recs[:rng.choice([1, 2])] + markers[at:]
+        elif shape == "then-other-fieldless":
+            empty2 = RecordDescriptor(str(empty.name) + "/second", [])
+            at = rng.randint(1, len(markers))
+            recs = markers[:at] + [marker(empty2, 100)] + markers[at:] + [marker(empty2, 101)]
+        elif shape == "other-then-fieldless":
+            at = rng.randint(1, len(recs))
+            recs = recs[:at] + markers[:1] + recs[at:]
+        else:
+            recs = [GroupedRecord(str(empty.name), [])] + markers
     if k == "grouped":
         # digest fields stay unset in a plain record but are an empty digest object here; keep the group representable
         g = am.make_grouped(rng, desc, case["members"], case["same_name"], thorough)
@@ -395,8 +449,16 @@ def execute(ctx, case):
     ctx.state["n"] += 1
     path = os.path.join(ctx.state["tmp"], "c%d.avro" % ctx.state["n"])
     accepted, refused = [], []
+    sink = case.get("sink", "path")
+    buf = None
     try:
-        w = RecordWriter(path)
+        if sink == "bytesio":
+            from flow.record.adapter.avro import AvroWriter
+
+            buf = KeepOpen()
+            w = AvroWriter(buf)
+        else:
+            w = RecordWriter(path)
         try:
             for i, r in enumerate(recs):
                 try:
@@ -421,6 +483,10 @@ def execute(ctx, case):
                       detail={"exception": repr(e)[:400], "accepted": len(accepted), "refused": refused[:5]})
         _cleanup(path)
         return
+    if buf is not None:
+        with open(path, "wb") as f:  # the readers below take the bytes from a file
+            f.write(buf.getvalue())
+    ctx.event("sink:" + sink)
     if [observe.obs(r) for r in recs] != before:
         ctx.violation(None, "writing to Avro mutated a record")
     expected = [recs[i] for i in accepted]
@@ -507,6 +573,8 @@ def execute(ctx, case):
         ctx.cell("second-type", case["variant"], case["pos"])
     elif case["k"] == "unmapped":
         ctx.cell("unmapped", case["ut"], case["pos"])
+    elif case["k"] == "fieldless":
+        ctx.cell("fieldless", case["shape"], mode, sink)
     elif case["k"] == "grouped":
         ctx.cell("grouped", case["members"], case["pos"], "same-name" if case["same_name"] else "own-name")
     for r in expected[:50]:
@@ -517,7 +585,7 @@ def execute(ctx, case):
                 ctx.event("dt_value:" + ("pre-1970" if m < 0 else "below-2^32us" if m <= 0xFFFFFFFF else "year>=9999" if v.year >= 9999 else "other"))
             elif t in am.LONG_TYPES and v is not None and n != "_version":
                 ctx.event("long_value:" + ("beyond-int32" if not am.I32[0] <= int(v) <= am.I32[1] else "int32"))
-    ctx.nontrivial(case["k"], case.get("t") or case.get("variant") or case.get("ut") or case.get("members"), case.get("vc") or case.get("pos"),
+    ctx.nontrivial(case["k"], case.get("t") or case.get("variant") or case.get("ut") or case.get("members") or case.get("shape"), case.get("vc") or case.get("pos"), sink,
                    case.get("same_name"), mode, case["s"])
     ctx.sample({"case": case, "descriptor": observe.desc_obs(recs[0]._desc), "statuses": [s[1] or "mappable" for s in status][:8],
                 "accepted": len(accepted), "refused": refused[:3], "first_record": repr(observe.obs(recs[0])[2:])[:400]}, kind=case["k"] + ":" + mode)
@@ -573,7 +641,7 @@ def _cleanup(path):
 
 def finish(ctx):
     ctx.state["reach"].into(ctx)
-    ctx.note("matrix_cells_expected", len(am.all_cells()) + len(am.VARIANT_KINDS) * 2 + len(am.UNMAPPED_TYPES) * 2 + 12 + 16 if ctx.shard == 0 else 0)
+    ctx.note("matrix_cells_expected", len(am.all_cells()) + len(am.VARIANT_KINDS) * 2 + len(am.UNMAPPED_TYPES) * 2 + 12 + 16 + len(FIELDLESS_SHAPES) * 4 if ctx.shard == 0 else 0)
     ctx.note("avro_schema_types_seen", sorted(ctx.state.get("avro_types", ())))
     ctx.note("TZ", os.environ.get("TZ"))
     if ctx.evaluations:
